@@ -481,3 +481,240 @@ func constantInt(o types.Object) (int64, bool) {
 	}
 	return constantToInt(k)
 }
+
+func init() { register("C02", c02r6, c02r7) }
+
+// C02-R6: the message layer records the end flag of every accepted frame.
+func c02r6(c *Ctx) {
+	const rule = "C02-R6"
+	c.Doc(rule, "in message.ensureData every path from the nil-error edge of StreamInterface.ReadFrame to the next frame read or to any return stores that frame's end-of-message result into Message.isEOM (an accepted frame's authenticated boundary is never dropped), and isEOM is written nowhere else but constructors")
+	fn := c.needFn(rule, "message", "(*Message).ensureData")
+	isEOM := c.needField(rule, "message", "Message", "isEOM")
+	rf := c.msgReadFrame(rule)
+	if fn == nil || isEOM == nil || rf == nil {
+		return
+	}
+	calls := callsIn(fn, rf)
+	for _, cs := range calls {
+		flag := extractN(cs.Value(), 1)
+		succ, _, checked := callErrEdges(fn, cs.Value())
+		if flag == nil || !checked {
+			c.Violate(rule, fnName(fn)+"#ReadFrame", "the end-of-message result or the error of ReadFrame is unused", cs.Pos())
+			continue
+		}
+		var stores []ssa.Instruction
+		allInstrs(fn, func(_ *ssa.BasicBlock, _ int, in ssa.Instruction) {
+			if st, ok := in.(*ssa.Store); ok {
+				if fa, ok := st.Addr.(*ssa.FieldAddr); ok && fieldOfAddr(fa) == isEOM && st.Val == flag {
+					stores = append(stores, st)
+				}
+			}
+		})
+		cuts := newCuts().AddInstrs(stores...)
+		var targets []Target
+		for _, r := range c.returnsOf(fn) {
+			targets = append(targets, r.Target())
+		}
+		targets = append(targets, Target{Instr: cs.(ssa.Instruction)})
+		ok := len(stores) > 0
+		var wit []string
+		for _, e := range succ {
+			if len(e.To().Instrs) == 0 {
+				continue
+			}
+			for _, t := range targets {
+				if p := findPath(Point{e.To(), 0}, t, cuts); p != nil {
+					ok = false
+					wit = c.describePath(p)
+				}
+			}
+		}
+		c.Check(ok, rule, fnName(fn)+"#isEOM<-ReadFrame", "every accepted frame's end flag is recorded before the next read or return", "an accepted frame's end-of-message flag can be dropped (the next message would be merged into this one)", cs.Pos(), wit...)
+	}
+	c.MinCount(rule, "ReadFrame calls in ensureData", len(calls), 1)
+	// writers of isEOM: ensureData and the two constructors only
+	var wr []*ssa.Function
+	poss := map[*ssa.Function]token.Pos{}
+	for _, a := range c.fieldAccesses(isEOM) {
+		if a.Write {
+			wr = append(wr, a.Fn)
+			poss[a.Fn] = a.Instr.Pos()
+		}
+	}
+	c.whoMay(rule, "write Message.isEOM", wr, poss, fnSet(fn, c.LookupFn("message", "NewMessageFromStream"), c.LookupFn("message", "NewMessageForStream")))
+}
+
+func (c *Ctx) msgReadFrame(rule string) types.Object {
+	if tp := c.PkgTypes("message"); tp != nil {
+		if si := tp.Scope().Lookup("StreamInterface"); si != nil {
+			o, _, _ := types.LookupFieldOrMethod(si.Type(), false, tp, "ReadFrame")
+			if o != nil {
+				return o
+			}
+		}
+	}
+	c.AnchorMissing(rule, "message.StreamInterface.ReadFrame")
+	return nil
+}
+
+// C02-R7: a broken stream is never mistaken for the end of a message.
+func c02r7(c *Ctx) {
+	const rule = "C02-R7"
+	c.Doc(rule, "message-layer readers swallow an ensureData error only on the true edge of an identity comparison with the io.EOF sentinel (the value ensureData itself returns at end of message), and every error the stream's frame readers return is freshly constructed (fmt.Errorf/errors.New), so a truncated connection (wrapped EOF) can never be identical to that sentinel")
+	ens := c.needFn(rule, "message", "(*Message).ensureData")
+	if ens == nil {
+		return
+	}
+	var eofVar types.Object
+	if tp := c.PkgTypes("io"); tp != nil {
+		eofVar = tp.Scope().Lookup("EOF")
+	}
+	if eofVar == nil {
+		c.AnchorMissing(rule, "io.EOF")
+		return
+	}
+	isEOFLoad := func(v ssa.Value) bool {
+		u, ok := v.(*ssa.UnOp)
+		if !ok || u.Op != token.MUL {
+			return false
+		}
+		g, ok := u.X.(*ssa.Global)
+		return ok && g.Object() == eofVar
+	}
+	n := 0
+	for _, fn := range c.FnsOfPkg("message") {
+		for _, cs := range callsIn(fn, ens.Object()) {
+			n++
+			v := cs.Value()
+			if v == nil {
+				continue
+			}
+			_, fail, checked := callErrEdges(fn, v)
+			if !checked {
+				// "return m.ensureData(...)" style: error is the caller's
+				continue
+			}
+			al := aliases(fn, v)
+			cuts := newCuts()
+			for _, b := range fn.Blocks {
+				ifi := blockIf(b)
+				if ifi == nil {
+					continue
+				}
+				a := condAtom(ifi.Cond)
+				if a.Op != token.EQL && a.Op != token.NEQ {
+					continue
+				}
+				var other ssa.Value
+				if al[a.X] {
+					other = a.Y
+				} else if al[a.Y] {
+					other = a.X
+				} else {
+					continue
+				}
+				if !isEOFLoad(other) {
+					continue
+				}
+				eq := a.Op == token.EQL
+				if a.Neg {
+					eq = !eq
+				}
+				if eq {
+					cuts.AddEdges(Edge{b, 0})
+				} else {
+					cuts.AddEdges(Edge{b, 1})
+				}
+			}
+			ok := true
+			var wit []string
+			var pos token.Pos = cs.Pos()
+			for _, e := range fail {
+				if len(e.To().Instrs) == 0 {
+					continue
+				}
+				for _, t := range c.successTargets(fn) {
+					if p := findPath(Point{e.To(), 0}, t.Target(), cuts); p != nil {
+						// passing another ensureData success is fine? no: the failed read already lost data
+						ok = false
+						wit = c.describePath(p)
+					}
+				}
+			}
+			c.Check(ok, rule, fnName(fn)+"#ensureData-error", "an ensureData error is swallowed only when it is identical to io.EOF (end of message)", "an ensureData error other than the io.EOF sentinel can be swallowed: a truncated stream would be delivered as a complete value", pos, wit...)
+		}
+	}
+	c.MinCount(rule, "ensureData call sites in package message", n, 10)
+	// the frame readers return only freshly constructed errors
+	for _, name := range []string{"(*Stream).ReceiveFrameWithEnd", "(*Stream).ReceiveFrame", "(*Stream).ReadFrame"} {
+		fn := c.needFn(rule, "stream", name)
+		if fn == nil {
+			continue
+		}
+		bad := c.c02RawErrorLeaf(fn, map[*ssa.Function]bool{}, 0)
+		c.Check(bad == nil, rule, fnName(fn)+"#fresh-errors", "every error it returns is constructed by fmt.Errorf/errors.New (never a bare io.EOF)", "may return an error value it did not construct (a bare io.EOF from the connection would be taken for end-of-message by the message layer)", fn.Pos(), func() []string {
+			if bad == nil {
+				return nil
+			}
+			return []string{c.Pos(bad.Pos()) + " " + bad.String()}
+		}()...)
+	}
+	// ensureData itself returns the sentinel only past the isEOM test
+	isEOM := c.needField(rule, "message", "Message", "isEOM")
+	if isEOM != nil {
+		_, on := fieldCondEdges(ens, isEOM)
+		cuts := newCuts().AddEdges(on...)
+		for _, r := range c.returnsOf(ens) {
+			ev := r.Ret.Results[len(r.Ret.Results)-1]
+			if r.Pred != nil {
+				if phi, ok := ev.(*ssa.Phi); ok {
+					for i, p := range r.Ret.Block().Preds {
+						if p == r.Pred {
+							ev = phi.Edges[i]
+						}
+					}
+				}
+			}
+			if isEOFLoad(ev) {
+				p := findPath(entryPoint(ens), r.Target(), cuts)
+				c.Check(p == nil, rule, fnName(ens)+"#EOF-only-at-EOM", "ensureData returns io.EOF only past an isEOM==true edge", "ensureData can return io.EOF although the frame source did not signal end of message", r.Ret.Pos(), c.describePath(p)...)
+			}
+		}
+	}
+}
+
+// c02RawErrorLeaf returns an error-typed leaf value fn may return that is not freshly constructed.
+func (c *Ctx) c02RawErrorLeaf(fn *ssa.Function, seen map[*ssa.Function]bool, depth int) ssa.Value {
+	if seen[fn] || depth > 5 {
+		return nil
+	}
+	seen[fn] = true
+	for _, r := range c.returnsOf(fn) {
+		ev := r.Ret.Results[len(r.Ret.Results)-1]
+		for _, o := range origins(fn, ev) {
+			if isNilConst(o) {
+				continue
+			}
+			if call, _ := originCall(o); call != nil {
+				if obj := calleeObj(call); obj != nil && obj.Pkg() != nil {
+					full := obj.Pkg().Path() + "." + obj.Name()
+					if full == "fmt.Errorf" || full == "errors.New" {
+						continue
+					}
+				}
+				if g := calleeFn(call); g != nil && g.Blocks != nil && fnPkg(g) != nil && inModule(fnPkg(g).Path()) {
+					if bad := c.c02RawErrorLeaf(g, seen, depth+1); bad != nil {
+						return bad
+					}
+					continue
+				}
+			}
+			if mi, ok := o.(*ssa.MakeInterface); ok {
+				_ = mi
+				continue
+			}
+			return o
+		}
+	}
+	return nil
+}
